@@ -597,3 +597,9 @@ impl TxResult {
         self.results.iter().find_map(|r| r.as_ref().err())
     }
 }
+
+/// set the slot the syscall stubs report (for pure functions that read Clock::get())
+pub fn set_ctx_slot(slot: u64) {
+    init();
+    CTX.with(|c| c.borrow_mut().clock.slot = slot);
+}
